@@ -194,3 +194,18 @@ def permute_pvp_fields(rng, pvp):
             w[n] = v[n]
         out[k] = w
     return out
+
+
+def relayout_pvp_in_place(meta, rng):
+    """edit the per-vector parameter layout of THIS metadata object in place (the parameters keep their sizes, their offsets are
+    re-assigned in a shuffled order; NumBytesPVP is unchanged): a metadata object that was already used once - its vector dtype
+    requested, a file written from it - must describe the new layout everywhere afterwards"""
+    pvp = meta.PVP
+    flds = [f for f in pvp._fields if getattr(pvp, f, None) is not None and hasattr(getattr(pvp, f), 'Offset')]
+    rng.shuffle(flds)
+    off = 0
+    for f in flds:
+        v = getattr(pvp, f)
+        v.Offset = off
+        off += v.Size
+    assert off * 8 == meta.Data.NumBytesPVP
